@@ -28,6 +28,21 @@ def rule_r1(ctx):
     if not cmp_blocks or not raw_true:
         ctx.fail(r, f, "origin test missing", f.line, "bus0_sock_send no longer compares nni_pipe_id(pipe->pipe) with sender under s->raw")
         return
+    # the origin compared with is the one recorded in the raw header: every non-zero definition of `sender` is the word
+    # taken off the header (the message's pipe attribute is the same value only for a message that is passed on as received)
+    sdefs = [(pos, d) for pos, d in G.var_defs(f, "sender")]
+    for pos, d in sdefs:
+        if d is None or const_of(d) is not None:
+            continue
+        dd = d
+        while dd is not None and dd.get("k") == "cast":
+            dd = dd["e"]
+        if dd is not None and dd.get("k") == "call" and dd.get("fn") in ("nni_msg_header_trim_u32", "nni_msg_header_peek_u32"):
+            r.ob(f, "sender is the word taken off the raw header")
+        else:
+            ctx.fail(r, f, "origin not taken from the raw header", f.line_of(*pos) if pos else f.line,
+                     "bus0_sock_send sets sender = %s: the origin a forwarder wrote into the raw header is ignored, so a message it "
+                     "built afresh (pipe attribute 0) is sent back to the peer it came from" % show(d)[:60])
     # loop-iteration entry: the block(s) holding the s->raw test that precedes the comparison
     heads = {b for b in raw_true if any(f.blocks[b].succs[raw_true[b]] == cb for cb in cmp_blocks)}
     if not heads:
@@ -240,12 +255,51 @@ def rule_r10(ctx):
         raise AnalysisBroken("no send slot takes protocol data out of the user's message any more (bus0_sock_send did)")
 
 
+# ---------------------------------------------------------------------------
+# R13: a receive function delivers the message as it was queued
+
+
+def rule_r13(ctx):
+    r = ctx.rule("C09.R13", "T10", "a receive function delivers the message as it was queued: the functions in the sock_recv / ctx_recv "
+                 "slots of sockets that run raw and cooked through the same code apply no header mutator (nni_msg_header_clear / _trim / _chop / _append / _insert) to the "
+                 "message they hand to the application -- what the receive callback prepared (for a raw socket: the header that "
+                 "names the origin / the route) is what the application gets. bus0_sock_recv serves cooked and raw sockets: a "
+                 "header cleared there takes the origin off every message a raw forwarder reads from the buffer, and the "
+                 "forwarder echoes it to the peer it came from", floor=1)
+    prog = ctx.prog
+    MUT = ("nni_msg_header_clear", "nni_msg_header_trim", "nni_msg_header_trim_u32", "nni_msg_header_chop", "nni_msg_header_chop_u32",
+           "nni_msg_header_append", "nni_msg_header_append_u32", "nni_msg_header_insert", "nni_msg_header_insert_u32")
+    n = 0
+    seen = set()
+    for slot in ("nni_proto_sock_ops.sock_recv", "nni_proto_ctx_ops.ctx_recv"):
+        for f in prog.slot_fns(slot):
+            if f.cfg_failed or f.name in seen:
+                continue
+            seen.add(f.name)
+            # only the sockets that run raw and cooked through the same receive function (their record has a `raw` flag):
+            # a cooked-only receive function may well consume the header it is about to remember (rep0, resp0)
+            recs = {d.get("rec") for t in f.sites() if t.node.get("k") == "decls" for d in t.node["d"] if d.get("rec")}
+            if not any(any(fl["n"] == "raw" for fl in prog.records.get(rc, {}).get("fields", [])) for rc in recs):
+                continue
+            n += 1
+            cs = list(f.calls(MUT))
+            if cs:
+                ctx.fail(r, f, "header changed on the way to the application", cs[0].line,
+                         "%s calls %s (line %s) on the message it delivers: the receive callback is where a protocol shapes the "
+                         "message; what is changed here is changed for cooked and raw sockets alike" % (f.name, cs[0].node["fn"], cs[0].line))
+            else:
+                r.ob(f, "no header mutator")
+    if n < 1:
+        raise AnalysisBroken("no receive slot function of a raw-and-cooked socket found (bus0_sock_recv was one)")
+
+
 def run(ctx):
     ctx.guard(rule_r1)
     ctx.guard(rule_r3)
     ctx.guard(rule_r7)
     ctx.guard(rule_r8)
     ctx.guard(rule_r10)
+    ctx.guard(rule_r13)
     from . import c16
     ctx.guard(c16.rule_r17)          # every other peer gets the message as it was sent: a transport does not write into it
     for rr in ctx.rules:
